@@ -56,8 +56,12 @@ def label_relations(block):
             # (the code words of '<x>' are the sensors named '<x>_h' and '<x>_l'; falling back to the registers the label itself names)
             hi = ids.get(sn.id_ + "_h") or next((x for x in block["sensors"] if type(x).__name__ == "Integer" and x.offset == sn.offset), None)
             lo = ids.get(sn.id_ + "_l") or next((x for x in block["sensors"] if type(x).__name__ == "Integer" and x.offset == sn._offsetL), None)
-            if hi is not None and lo is not None:
-                rel.append(("bitmap22", sn, (hi, lo)))
+            if hi is None or lo is None:
+                # no sensor exposes the two code words: read them as plain 16-bit words at the registers the label names
+                from .. import env as _env
+                I_ = _env.goodwe().sensor.Integer
+                hi, lo = I_(sn.id_ + "__high_word", sn.offset, "high code word"), I_(sn.id_ + "__low_word", sn._offsetL, "low code word")
+            rel.append(("bitmap22", sn, (hi, lo)))
     return rel
 
 
@@ -137,7 +141,7 @@ def check_labels(spec, part):
                                 if got != want:
                                     # classify by mechanism: the code computes  H << (16 + L)  (operator precedence)
                                     prec = rs.bitmap_labels((hv << (16 + lv)) & 0xFFFFFFFF if lv < 64 else 0, lab._labels)
-                                    key = f"C13/{fam}/bitmap22/shift-precedence" if got == prec else f"C13/{fam}/bitmap22/{lab.id_}"
+                                    key = f"C13/{fam}/bitmap22/shift-precedence/{lab.id_}" if got == prec else f"C13/{fam}/bitmap22/{lab.id_}"
                                     part.violate(key, f"{fam} {lab.id_}={got!r} but {hi.id_}=0x{hv:04x}, {lo.id_}=0x{lv:04x} "
                                                       f"(high*65536+low) has the set bits {want!r}", dict(case0, h=h.hex(), l=l.hex()))
                     part.see(f"{fam}|bitmap22|{lab.id_}")
